@@ -98,6 +98,29 @@ structure WChain where
   id : Nat
   specs : List TaskSpec
   core : Waterfall.Chain
+  owners : List Nat := []   -- per step: the chain op that made the task (differs from `id` for tasks a reused Builder already held)
+  tok : Nat := 0            -- chain instance (ordinal of the first shown task invocation among all chains), 0 = none yet
+
+/-- the Builder objects of a case (`chain … via=builder bld=<k>`): what `Model/Waterfall.lean`'s `Builder` holds, as
+(task script, making chain op) per step -/
+abbrev Blds := List (Nat × List (TaskSpec × Nat))
+
+def Blds.get (b : Blds) (k : Nat) : List (TaskSpec × Nat) := ((b.find? (·.1 = k)).map (·.2)).getD []
+def Blds.set (b : Blds) (k : Nat) (v : List (TaskSpec × Nat)) : Blds :=
+  if b.any (·.1 = k) then b.map fun x => if x.1 = k then (k, v) else x else b ++ [(k, v)]
+
+/-- `Builder.Next(t)…` for the new tasks of chain op `id`, then `Do()`: the chain gets everything the builder holds
+(`Waterfall.Builder.next` / `Waterfall.Builder.chainTasks`; without `bld=` a fresh builder / a plain task list) -/
+def buildChain (b : Blds) (ws : List String) (id : Nat) (specs : List TaskSpec) : Blds × List TaskSpec × List Nat :=
+  let fresh := specs.map fun t => (t, id)
+  match kvNat ws "bld" with
+  | some k =>
+    let held := (fresh.foldl (fun (bb : Waterfall.Builder (TaskSpec × Nat)) t => bb.next t) { tasks := b.get k }).chainTasks
+    (b.set k held, held.map (·.1), held.map (·.2))
+  | none => (b, specs, fresh.map (·.2))
+
+def bldRefused (ws : List String) : Bool :=
+  (kv ws "bld").isSome && (kv ws "via" != some "builder" || kv ws "mem" == some "arena")
 
 structure Pend where
   chain : Nat
@@ -112,12 +135,14 @@ structure WSt where
   stopped : Bool := false
   parked : Bool := false         -- the consumer sits in a parking closure; `gq` is what waits behind it
   blocked : Option Nat := none   -- chain whose start `Post` is blocked on the full channel (at most one)
+  ntok : Nat := 0                -- chain instances seen so far
+  blds : Blds := []
 
 /-- closures of chains (not fillers, id 0) waiting behind the parked consumer, the blocked starter included -/
 def WSt.chainQueued (s : WSt) : Nat := (s.gq.filter (· ≠ 0)).length + (if s.blocked.isSome then 1 else 0)
 
-def showEv (id : Nat) : Waterfall.Ev → String
-  | .task i a => s!"t{id}.{i}{showNats a}c"
+def showEv (id : Nat) (owners : List Nat) (tok : Nat) : Waterfall.Ev → String
+  | .task i a => s!"t{owners.getD i id}.{i}{showNats a}c#{tok}"
   | .final e a => s!"f{id}.{if e then 1 else 0}{showNats a}c"
   | .done _ _ _ => ""
 
@@ -151,11 +176,17 @@ def drainW : Nat → WSt → List String → WSt × List String
         | none => drainW fuel s out
         | some core' =>
           let c' := { c with core := core' }
+          -- the first task body of a chain that is seen running makes the chain instance known
+          let fresh : Bool := match core'.hist.head? with
+            | some (.task i _) => c'.tok == 0 && (c.specs[i]?.map (·.mode)) != some .unset
+            | _ => false
+          let c' := if fresh then { c' with tok := s.ntok + 1 } else c'
+          let s := if fresh then { s with ntok := s.ntok + 1 } else s
           let s := s.updChain c'
           match core'.hist.head? with
           | some (.task i a) =>
             -- an unset step has no body: the invocation is attempted (and panics under `doTask`'s recover), nothing is seen
-            let out := if (c.specs[i]?.map (·.mode)) == some .unset then out else out ++ [showEv id (.task i a)]
+            let out := if (c.specs[i]?.map (·.mode)) == some .unset then out else out ++ [showEv id c'.owners c'.tok (.task i a)]
             match c.specs[i]? with
             | none => drainW fuel s out
             | some t =>
@@ -170,7 +201,7 @@ def drainW : Nat → WSt → List String → WSt × List String
                 | .later => { s with pend := s.pend ++ [⟨id, i, t.err, r⟩] }
                 | .never | .panicBefore | .unset => s
               drainW fuel s out
-          | some (.final e a) => drainW fuel s (out ++ [showEv id (.final e a)])
+          | some (.final e a) => drainW fuel s (out ++ [showEv id [] 0 (.final e a)])
           | _ => drainW fuel s out
 
 def showOut (out : List String) : String := if out.isEmpty then "-" else " ".intercalate out
@@ -197,18 +228,23 @@ def stepW (s : WSt) (ws : List String) : WSt × String :=
     match kvNat ws "id", parseTasks ws with
     | some id, some specs =>
       let frm := (kv ws "from").getD ""
+      if bldRefused ws then (s, "bad-op") else
       if s.parked then
         -- same admission rule as the harness: no self-post deadlock, at most one blocked sender
         let room := s.gq.length < cap
         if frm == "cons" || s.chainQueued ≥ 4 || s.blocked.isSome || (!room && frm != "go") then (s, "bad-op")
         else
-          let c : WChain := ⟨id, specs, { n := specs.length }⟩
-          let s := { s with chains := s.chains ++ [c] }
+          let (blds, specs, owners) := buildChain s.blds ws id specs
+          let c : WChain := { id := id, specs := specs, core := { n := specs.length }, owners := owners }
+          let s := { s with chains := s.chains ++ [c], blds := blds }
           if room then ({ s with gq := s.gq ++ [id] }, "-") else ({ s with blocked := some id }, "-")
-      else if s.stopped then (s, "-")   -- Post on the closed channel: recovered, nothing is ever run
+      else if s.stopped then
+        -- Post on the closed channel: recovered, nothing is ever run (a reused builder has taken the tasks all the same)
+        ({ s with blds := (buildChain s.blds ws id specs).1 }, "-")
       else
-        let c : WChain := ⟨id, specs, { n := specs.length }⟩
-        let s := { s with chains := s.chains ++ [c], gq := s.gq ++ [id] }
+        let (blds, specs, owners) := buildChain s.blds ws id specs
+        let c : WChain := { id := id, specs := specs, core := { n := specs.length }, owners := owners }
+        let s := { s with chains := s.chains ++ [c], gq := s.gq ++ [id], blds := blds }
         let (s, out) := drainW 100000 s []
         (s, showOut out)
     | _, _ => (s, "bad-op")
@@ -241,7 +277,8 @@ def parseKinds : Nat → List Char → List Kind → Option (List Kind)
   | _, [], acc => some acc
   | 0, _, _ => none
   | fuel + 1, k :: rest, acc =>
-    let kind : Option Kind := match k with | 'n' => some .normal | 'x' => some .panics | 'h' => some .hold | _ => none
+    -- 'd': posted from, and panicking at, the bottom of a deep call chain - for the scheduler a panicking closure
+    let kind : Option Kind := match k with | 'n' => some .normal | 'x' | 'd' => some .panics | 'h' => some .hold | _ => none
     match kind, takeDigits rest 0 false with
     | some kind, some (n, rest') => if n ≤ 100000 then parseKinds fuel rest' (acc ++ List.replicate n kind) else none
     | _, _ => none
@@ -797,6 +834,8 @@ structure SpChain where
   args : List (List Nat) := []      -- arguments each invoked task received
   calls : List Nat := []            -- completions made by each invoked task on a running scheduler
   finals : Nat := 0
+  owners : List Nat := []           -- per step: the chain op that made the task
+  tok : Nat := 0                    -- chain instance once a task of the chain was seen running
 
 /-- spec state of one run service in a `kind=m` case -/
 structure SpSvc where
@@ -821,6 +860,7 @@ structure SpecS where
   chains : List SpChain := []
   pend : List Pend := []
   parked : Bool := false
+  blds : Blds := []
   svcs : List SpSvc := []
   panicPosted : Bool := false   -- a panicking closure / task has been handed to the code in this case
   dead : Bool := false
@@ -851,7 +891,7 @@ def SpChain.atUnsetStep (c : SpChain) : Bool :=
 
 def bump (l : List Nat) (i k : Nat) : List Nat := l.mapIdx fun j v => if j = i then v + k else v
 
-inductive WEv | task (id i : Nat) (args : List Nat) (g : String) | final (id : Nat) (e : Bool) (args : List Nat) (g : String)
+inductive WEv | task (id i : Nat) (args : List Nat) (g : String) (tok : Nat := 0) | final (id : Nat) (e : Bool) (args : List Nat) (g : String)
 
 def parseWEv (w : String) : Option WEv :=
   match w.toList with
@@ -861,10 +901,13 @@ def parseWEv (w : String) : Option WEv :=
       match takeDigits rest 0 false with
       | some (i, '[' :: rest) =>
         let inner := rest.takeWhile (· ≠ ']')
-        let g := String.ofList ((rest.dropWhile (· ≠ ']')).drop 1)
+        let g0 := (rest.dropWhile (· ≠ ']')).drop 1
+        let g := String.ofList (g0.takeWhile (· ≠ '#'))
+        -- `#<n>`: the chain instance (callback object) the task body was handed
+        let tok := ((takeDigits ((g0.dropWhile (· ≠ '#')).drop 1) 0 false).map (·.1)).getD 0
         match natList (String.ofList inner) with
         | some args =>
-          if k == 't' then some (.task id i args g)
+          if k == 't' then some (.task id i args g tok)
           else if k == 'f' then some (.final id (i == 1) args g)
           else none
         | none => none
@@ -875,13 +918,28 @@ def parseWEv (w : String) : Option WEv :=
 
 /-- one observed waterfall event -/
 def specWEv (s : SpecS) : WEv → Except String SpecS
-  | .task id i args g => do
+  | .task owner i args g tok => do
     if g.startsWith "!nilcb:" then
-      throw (viol "task-without-callback" s!"task {i} of chain {id} was invoked with a nil callback: it cannot complete")
-    if g != "c" then throw (viol "off-scheduler-goroutine" s!"task {i} of chain {id} ran on goroutine {g}")
-    match s.chains.find? (·.id = id) with
-    | none => throw (viol "task-out-of-order" s!"task of unknown chain {id}")
+      throw (viol "task-without-callback" s!"task {i} of chain {owner} was invoked with a nil callback: it cannot complete")
+    if g != "c" then throw (viol "off-scheduler-goroutine" s!"task {i} of chain {owner} ran on goroutine {g}")
+    -- which chain runs this task body: the one known under this chain instance; a new instance is the oldest live chain
+    -- that has not been seen running yet (chain starts are posted closures: they run in the order the chains were started)
+    let known : Option SpChain := if tok = 0 then none else s.chains.find? (·.tok = tok)
+    let running : Option SpChain := match known with
+      | some c => some c
+      | none =>
+        if tok = 0 then s.chains.find? (·.id = owner) else
+        match s.chains.find? (fun (c : SpChain) => c.tok = 0 && c.live && c.args.length = 0 && c.specs.length > 0
+                                && (c.specs[0]?.map TaskSpec.mode) != some TMode.unset) with
+        | some c => some { c with tok := tok }
+        | none => none
+    match running with
+    | none => throw (viol "task-out-of-order" s!"task {owner}.{i} ran but no chain is waiting to be started")
     | some c =>
+      let s := s.setChain c
+      let id := c.id
+      if c.owners.getD i id ≠ owner then
+        throw (viol "task-out-of-order" s!"chain {id}: a task body that is not its step {i} ran in its place (step {i} made by chain op {owner})")
       -- the attempted invocation of an unset (nil) step leaves no event; it stalls the chain unless an earlier task
       -- completed a second time (outside the at-most-once hypothesis), whose extra callback moves the cursor past it
       let skipped := i - c.args.length
@@ -957,7 +1015,10 @@ def specW (s : SpecS) (ws : List String) (obs : String) : Except String SpecS :=
     | some "fill" => pure s
     | some "chain" =>
       match kvNat ws "id", parseTasks ws with
-      | some id, some specs => pure { s with chains := s.chains ++ [{ id := id, specs := specs, live := !s.stopped }] }
+      | some id, some specs =>
+        if bldRefused ws then throw "bad-op" else
+        let (blds, specs, owners) := buildChain s.blds ws id specs
+        pure { s with chains := s.chains ++ [{ id := id, specs := specs, live := !s.stopped, owners := owners }], blds := blds }
       | _, _ => throw "bad-op"
     | some "fire" =>
       match kvNat ws "k" with
